@@ -99,9 +99,13 @@ def expr_cases(draw):
         if lead:
             nodes.insert(0, ["raw", lead])
         wrap = draw(st.sampled_from(["\n     ", "\n\t", " \n  \n   ", "  "]))
+        shape = draw(st.sampled_from([
+            '<i class="a%sb%s${%s}" id="z">w</i>',
+            # ... or in a processing instruction (behind a valid one)
+            '<?pi x%s${1 + 1}%s${%s} ?>',
+            '<?xml-stylesheet href="a"%s%s${%s}?>']))
         nodes.insert(draw(st.integers(0, len(nodes))), ["raw",
-                     '<i class="a%sb%s${%s}" id="z">w</i>' % (wrap, wrap,
-                                                              text)])
+                     shape % (wrap, wrap, text)])
         alt = False
         slots = [None]
     return {"nodes": nodes, "text": text, "alt": alt, "planted": bool(slots),
@@ -170,8 +174,17 @@ class ExprErrors(Part):
         if "implicit_i18n_attributes" in opts:
             opts["implicit_i18n_attributes"] = set(
                 opts["implicit_i18n_attributes"])
-        o = run(PageTemplate, src.replace("\n", case.get("eol", "\n")),
-                **opts)
+        eol = case.get("eol", "\n")
+        if src.startswith("<?xml"):
+            # XML mode: line endings are kept as written, positions refer
+            # to the text as given (lines are counted by line feeds: a lone
+            # CR is not generated there)
+            eol = "\r\n" if eol == "\r" else eol
+            src = src.replace("\n", eol)
+            true_off = src.find(case["text"])
+            detail.update(source=src, true_offset=true_off)
+            eol = "\n"
+        o = run(PageTemplate, src.replace("\n", eol), **opts)
         if o.ok:
             return Mismatch("expr:accepted", detail)
         if not isinstance(o.exc, TemplateError):
